@@ -347,11 +347,13 @@ Definition nc_sample_thr (eps : Q) (auto : bool) (M : mat) (u v : list Q) (k : n
 
 (* the real pipeline: jackknife sample k of a measurement against the value of the measurement
    repeated on catalogs from which patch k was removed (both are floats of the implementation; sums
-   taken in another order): compared where both are numbers, to tol * (1 + |value|) *)
+   taken in another order): where the repeated measurement is a number the sample must be one, within
+   tol * (1 + |value|); where it is not (a zero denominator) nothing is required (the sample's
+   total - row - column + diagonal may hold a rounding residual instead of an exact 0) *)
 Definition near1 (tol : Q) (x y : oq) : bool :=
-  match x, y with
-  | Some p, Some q => Qnear tol p q (1 + Qabs q)
-  | _, _ => true
+  match y with
+  | None => true
+  | Some q => match x with Some p => Qnear tol p q (1 + Qabs q) | None => false end
   end.
 Fixpoint forallb2o (f : oq -> oq -> bool) (l1 l2 : list oq) : bool :=
   match l1, l2 with
